@@ -605,6 +605,20 @@ class Rewriter:
                 if not mm:
                     break
                 dot = mm.start()
+                if mode in ('rename', 'rename_whole', 'rename_keep_tail'):
+                    new = mm.expand(wrapper) if '\\' in wrapper else wrapper
+                    if mode == 'rename':
+                        rep = '.' + new + '('
+                    elif mode == 'rename_whole':
+                        rep = '.' + new
+                    else:
+                        # keep what follows the opening paren that the regex consumed (e.g. the quote of a char literal)
+                        op_ = m.index('(', mm.start())
+                        rep = '.' + new + code[op_:mm.end()]
+                    code = code[:mm.start()] + rep + code[mm.end():]
+                    pos = mm.start() + len(rep)
+                    n += 1
+                    continue
                 op = mm.end() - 1
                 assert m[op] == '(', (rx, m[mm.start():mm.end()])
                 cp = match_close(m, op)
@@ -787,28 +801,16 @@ METHOD_RULES_PRE = [
     (r'\.\s*all\s*\(', 'vx::vec_all', 'strip_iter', 'vec.iter().all->vx::vec_all'),
 ]
 METHOD_RULES = [
-    (r'\.\s*parse\s*::\s*<\s*u32\s*>\s*\(', 'vx::parse_u32', 'ref', 'str.parse::<u32>->vx::parse_u32'),
-    (r'\.\s*parse\s*::\s*<\s*i32\s*>\s*\(', 'vx::parse_i32', 'ref', 'str.parse::<i32>->vx::parse_i32'),
-    (r'\.\s*parse\s*::\s*<\s*u8\s*>\s*\(', 'vx::parse_u8', 'ref', 'str.parse::<u8>->vx::parse_u8'),
-    (r'\.\s*parse\s*::\s*<\s*u16\s*>\s*\(', 'vx::parse_u16', 'ref', 'str.parse::<u16>->vx::parse_u16'),
-    (r'\.\s*parse\s*::\s*<\s*usize\s*>\s*\(', 'vx::parse_usize', 'ref', 'str.parse::<usize>->vx::parse_usize'),
-    (r'\.\s*parse\s*::\s*<\s*f64\s*>\s*\(', 'vx::parse_f64', 'ref', 'str.parse::<f64>->vx::parse_f64'),
-    (r'\.\s*starts_with\s*\(', 'vx::starts_with', 'ref', 'str.starts_with->vx::starts_with'),
-    (r'\.\s*ends_with\s*\(', 'vx::ends_with', 'ref', 'str.ends_with->vx::ends_with'),
-    (r'\.\s*contains\s*\(', 'vx::contains', 'ref', 'str.contains->vx::contains'),
-    (r'\.\s*find\s*\(', 'vx::find', 'ref', 'str.find->vx::find'),
-    (r'\.\s*rfind\s*\(', 'vx::rfind', 'ref', 'str.rfind->vx::rfind'),
-    (r'\.\s*strip_prefix\s*\(', 'vx::strip_prefix', 'ref', 'str.strip_prefix->vx::strip_prefix'),
-    (r'\.\s*trim\s*\(', 'vx::trim', 'ref', 'str.trim->vx::trim'),
-    (r'\.\s*trim_start\s*\(', 'vx::trim_start', 'ref', 'str.trim_start->vx::trim_start'),
-    (r'\.\s*trim_end\s*\(', 'vx::trim_end', 'ref', 'str.trim_end->vx::trim_end'),
-    (r'\.\s*trim_end_matches\s*\(', 'vx::trim_end_matches', 'ref', 'str.trim_end_matches->vx::trim_end_matches'),
-    (r'\.\s*trim_start_matches\s*\(', 'vx::trim_start_matches', 'ref', 'str.trim_start_matches->vx::trim_start_matches'),
-    (r'\.\s*replace\s*\(', 'vx::replace', 'ref', 'str.replace->vx::replace'),
-    (r'\.\s*to_uppercase\s*\(', 'vx::to_uppercase', 'ref', 'str.to_uppercase->vx::to_uppercase'),
-    (r'\.\s*split_at\s*\(', 'vx::split_at', 'ref', 'str.split_at->vx::split_at'),
-    (r'\.\s*join\s*\(', 'vx::join', 'ref', 'slice.join->vx::join'),
-    (r'\.\s*truncate\s*\(', 'vx::truncate', 'refmut', 'String.truncate->vx::truncate'),
+    (r'\.\s*parse\s*::\s*<\s*(u32|i32|u8|u16|usize|f64)\s*>\s*\(', r'vx_parse_\1', 'rename', 'str.parse::<T>->vx_parse_T'),
+    (r'\.\s*trim_start_matches\s*\(\s*\|\s*c\s*:\s*char\s*\|\s*c\s*\.\s*is_whitespace\s*\(\s*\)\s*\)', 'vx_trim_start()', 'rename_whole', 'str.trim_start_matches(is_whitespace)->vx_trim_start'),
+    (r'\.\s*chars\s*\(\s*\)\s*\.\s*nth\s*\(', 'vx_nth_char', 'rename', 'str.chars().nth->vx_nth_char'),
+    (r'\.\s*chars\s*\(\s*\)\s*\.\s*last\s*\(', 'vx_last_char', 'rename', 'str.chars().last->vx_last_char'),
+    (r'\.\s*lines\s*\(\s*\)\s*\.\s*collect\s*(::\s*<[^()]*>)?\s*\(', 'vx_lines', 'rename', 'str.lines().collect->vx_lines'),
+    (r'\.\s*replace\s*\(\s*\x27', 'vx_replace_char', 'rename_keep_tail', 'str.replace(char,_)->vx_replace_char'),
+] + [
+    (r'\.\s*%s\s*\(' % m, 'vx_%s' % m, 'rename', 'str.%s->vx_%s' % (m, m))
+    for m in ('starts_with', 'ends_with', 'contains', 'find', 'rfind', 'strip_prefix', 'trim', 'trim_start', 'trim_end',
+              'trim_end_matches', 'trim_start_matches', 'to_uppercase', 'to_lowercase', 'split_at')
 ]
 
 
